@@ -19,7 +19,12 @@ enum Lit { I(i64), F(u64), S(String), B(bool), Null, /// only as a field value, 
     Arr(Vec<Lit>) }
 
 #[derive(Clone, Debug, PartialEq)]
-enum Opd { Field(&'static str), Lit(Lit) }
+enum Opd { Field(&'static str), Lit(Lit), Arith(Ar, Box<Opd>, Box<Opd>) }
+
+/// arithmetic inside an operand
+#[derive(Clone, Copy, Debug, PartialEq)]
+enum Ar { Add, Sub, Mul, Div }
+const ARS: [Ar; 4] = [Ar::Add, Ar::Sub, Ar::Mul, Ar::Div];
 
 #[derive(Clone, Copy, Debug, PartialEq)]
 enum Op { Eq, Ne, Lt, Le, Gt, Ge }
@@ -71,10 +76,37 @@ impl Lit {
     }
 }
 
+impl Ar {
+    fn tok(&self) -> &'static str { match self { Ar::Add => "add", Ar::Sub => "sub", Ar::Mul => "mul", Ar::Div => "div" } }
+    fn vpl(&self) -> &'static str { match self { Ar::Add => "+", Ar::Sub => "-", Ar::Mul => "*", Ar::Div => "/" } }
+    fn ast(&self) -> BinOp { match self { Ar::Add => BinOp::Add, Ar::Sub => BinOp::Sub, Ar::Mul => BinOp::Mul, Ar::Div => BinOp::Div } }
+}
+
 impl Opd {
-    fn tok(&self) -> String { match self { Opd::Field(f) => format!("f:{}", f), Opd::Lit(l) => l.tok() } }
-    fn vpl(&self) -> String { match self { Opd::Field(f) => f.to_string(), Opd::Lit(l) => l.vpl() } }
-    fn ast(&self) -> Expr { match self { Opd::Field(f) => Expr::Ident(f.to_string()), Opd::Lit(l) => l.ast() } }
+    fn tok(&self) -> String {
+        match self {
+            Opd::Field(f) => format!("f:{}", f), Opd::Lit(l) => l.tok(),
+            Opd::Arith(op, a, b) => format!("ar {} {} {}", op.tok(), a.tok(), b.tok()),
+        }
+    }
+    fn vpl(&self) -> String {
+        match self {
+            Opd::Field(f) => f.to_string(), Opd::Lit(l) => l.vpl(),
+            Opd::Arith(op, a, b) => format!("({} {} {})", a.vpl(), op.vpl(), b.vpl()),
+        }
+    }
+    fn ast(&self) -> Expr {
+        match self {
+            Opd::Field(f) => Expr::Ident(f.to_string()), Opd::Lit(l) => l.ast(),
+            Opd::Arith(op, a, b) => Expr::Binary { op: op.ast(), left: Box::new(a.ast()), right: Box::new(b.ast()) },
+        }
+    }
+    fn fields(&self, out: &mut BTreeSet<&'static str>) {
+        match self { Opd::Field(f) => { out.insert(*f); } Opd::Lit(_) => {} Opd::Arith(_, a, b) => { a.fields(out); b.fields(out); } }
+    }
+    fn kind(&self) -> String {
+        match self { Opd::Field(_) => "field".into(), Opd::Lit(l) => l.kind().into(), Opd::Arith(..) => "arith".into() }
+    }
 }
 
 impl Op {
@@ -126,8 +158,8 @@ impl Fx {
     }
     fn fields(&self, out: &mut BTreeSet<&'static str>) {
         match self {
-            Fx::Cmp(_, l, r) | Fx::Other(_, l, r) => { for o in [l, r] { if let Opd::Field(f) = o { out.insert(*f); } } }
-            Fx::Atom(o) => { if let Opd::Field(f) = o { out.insert(*f); } }
+            Fx::Cmp(_, l, r) | Fx::Other(_, l, r) => { l.fields(out); r.fields(out); }
+            Fx::Atom(o) => o.fields(out),
             Fx::And(a, b) | Fx::Or(a, b) => { a.fields(out); b.fields(out); }
             Fx::Not(a) => a.fields(out),
         }
@@ -135,7 +167,7 @@ impl Fx {
     fn shape(&self) -> String {
         match self {
             Fx::Cmp(op, l, r) => {
-                let side = |o: &Opd| match o { Opd::Field(_) => "field".to_string(), Opd::Lit(l) => l.kind().to_string() };
+                let side = |o: &Opd| o.kind();
                 let cls = match op { Op::Eq | Op::Ne => "eq", _ => "ord" };
                 format!("cmp-{}:{}-{}", cls, side(l), side(r))
             }
@@ -208,6 +240,22 @@ fn other_atoms() -> Vec<Fx> {
     for op in OPS {
         v.push(Fx::Cmp(op, Opd::Lit(Lit::Null), Opd::Field("x")));
         v.push(Fx::Cmp(op, Opd::Field("y"), Opd::Lit(Lit::Null)));
+    }
+    // arithmetic over the current event's fields on either side (always the `Predicate::Expr` path)
+    let fx = |f: &'static str| Box::new(Opd::Field(f));
+    let li = |n: i64| Box::new(Opd::Lit(Lit::I(n)));
+    for ar in ARS {
+        for op in OPS {
+            v.push(Fx::Cmp(op, Opd::Arith(ar, fx("x"), li(1)), Opd::Field("y")));
+            v.push(Fx::Cmp(op, Opd::Field("y"), Opd::Arith(ar, fx("x"), li(2))));
+        }
+        v.push(Fx::Cmp(Op::Eq, Opd::Arith(ar, fx("x"), Box::new(Opd::Lit(Lit::F(F1_5)))), Opd::Lit(Lit::F(F1_5))));
+        v.push(Fx::Cmp(Op::Gt, Opd::Arith(ar, fx("x"), fx("y")), Opd::Lit(Lit::I(1))));
+        v.push(Fx::Cmp(Op::Le, Opd::Arith(ar, Box::new(Opd::Arith(Ar::Mul, fx("x"), li(2))), fx("y")), Opd::Arith(Ar::Add, fx("y"), li(0))));
+        v.push(Fx::Cmp(Op::Ne, Opd::Arith(ar, fx("x"), li(0)), Opd::Field("x")));
+        v.push(Fx::Cmp(Op::Lt, Opd::Arith(ar, li(3), li(2)), Opd::Field("x")));
+        v.push(Fx::Atom(Opd::Arith(ar, fx("x"), fx("y"))));
+        v.push(Fx::Other(Oth::In, Opd::Arith(ar, fx("x"), Box::new(Opd::Lit(Lit::S("a".into())))), Opd::Field("y")));
     }
     v.push(Fx::Cmp(Op::Eq, Opd::Lit(Lit::Null), Opd::Lit(Lit::Null)));
     v.push(Fx::Atom(Opd::Lit(Lit::Null)));
@@ -379,6 +427,8 @@ pub fn run(ctx: &mut Ctx, _name: &str) {
         Fx::Cmp(Op::Lt, Opd::Field("x"), Opd::Field("y")), Fx::Atom(Opd::Field("y")), Fx::Cmp(Op::Ne, Opd::Lit(Lit::I(1)), Opd::Field("x")),
         Fx::Other(Oth::In, Opd::Field("x"), Opd::Field("y")), Fx::Other(Oth::NotIn, Opd::Lit(Lit::S("a".into())), Opd::Field("y")),
         x(Lit::Null, Op::Eq), Fx::Cmp(Op::Ne, Opd::Field("y"), Opd::Lit(Lit::Null)),
+        Fx::Cmp(Op::Gt, Opd::Arith(Ar::Add, Box::new(Opd::Field("x")), Box::new(Opd::Lit(Lit::I(1)))), Opd::Field("y")),
+        Fx::Cmp(Op::Eq, Opd::Arith(Ar::Mul, Box::new(Opd::Field("x")), Box::new(Opd::Lit(Lit::I(2)))), Opd::Field("y")),
     ];
     let mut d2: Vec<Fx> = Vec::new();
     for a in &red {
